@@ -1661,3 +1661,63 @@ func (m *Model) SyncFrom(swamp string, resp *hydrapb.GetAllResponse, err error) 
 		s.Exist = Maybe
 	}
 }
+
+// ShiftExpired — "retrieves and deletes expired treasures … If HowMany is 0, all
+// expired treasures will be returned; if > 0, only that many"; selection is
+// "ExpiredAt < server-now, oldest-first"; "a valid Swamp will always contain at
+// least 1 Treasure", i.e. the swamp disappears only when nothing at all is left.
+// A record without ExpiredAt "is considered to never expire". t0/t1 = call
+// interval (unix nanos): records whose expiry lies inside it may go either way.
+func (m *Model) ShiftExpired(swamp string, howMany int, resp *hydrapb.ShiftExpiredTreasuresResponse, err error, t0, t1 int64) Verdict {
+	s := m.sw(swamp)
+	if err != nil {
+		if s.Exist != Yes && notExistErr(err) {
+			m.class("shiftexpired-missing-swamp-error")
+			return ok
+		}
+		return bad("shift-expired", "ShiftExpiredTreasures(%s): unexpected error %v", swamp, err)
+	}
+	if resp == nil {
+		return bad("nil-response", "ShiftExpiredTreasures returned (nil, nil)")
+	}
+	seen := map[string]bool{}
+	last := int64(0)
+	for i, t := range resp.GetTreasures() {
+		r := m.Rec(swamp, t.GetKey())
+		if r == nil || seen[t.GetKey()] {
+			return bad("shift-expired", "ShiftExpiredTreasures(%s): returned key %q which does not exist / twice", swamp, t.GetKey())
+		}
+		seen[t.GetKey()] = true
+		if r.EAt == 0 || r.EAt >= t1 {
+			return bad("shift-expired", "ShiftExpiredTreasures(%s): returned key %q which is not expired (ExpiredAt %d, 0 = never)", swamp, t.GetKey(), r.EAt)
+		}
+		if d := matchTreasure(r, t); d != "" {
+			return bad("shift-expired", "ShiftExpiredTreasures(%s) key %q: %s", swamp, t.GetKey(), d)
+		}
+		if i > 0 && r.EAt < last {
+			return bad("shift-expired", "ShiftExpiredTreasures(%s): not oldest-first: %v", swamp, resp.GetTreasures())
+		}
+		last = r.EAt
+	}
+	n := len(resp.GetTreasures())
+	if howMany > 0 && n > howMany {
+		return bad("shift-expired", "ShiftExpiredTreasures(%s): %d treasures for HowMany=%d", swamp, n, howMany)
+	}
+	full := howMany > 0 && n == howMany
+	for k := range s.Keys {
+		r := m.Rec(swamp, k)
+		if r == nil || seen[k] || r.EAt == 0 || r.EAt >= t0 {
+			continue
+		}
+		if !full {
+			return bad("shift-expired", "ShiftExpiredTreasures(%s, HowMany=%d): expired key %q (ExpiredAt %d) was not returned; got %d treasures", swamp, howMany, k, r.EAt, n)
+		}
+		if r.EAt < last {
+			return bad("shift-expired", "ShiftExpiredTreasures(%s, HowMany=%d): key %q (ExpiredAt %d) is older than a returned record but was left behind", swamp, howMany, k, r.EAt)
+		}
+	}
+	for k := range seen {
+		s.del(k)
+	}
+	return ok
+}
